@@ -73,7 +73,8 @@ def run(ck):
     ck.rule("C04.R2", "no second acquisition of the registry lock while it is held", floor=3)
     ck.rule("C04.R3", "lock-free list push: link, CAS, retry with observed head, orderings", floor=5)
     ck.rule("C04.R4", "MacroCallsite registration state machine", floor=4)
-    ck.rule("C04.R7", "the std and no_std registries talk to collectors and callsites through the same set of calls", floor=3)
+    ck.rule("C04.R8", "the count behind get_default's fast path moves by atomic read-modify-write only, once per guard (as C02.R1): a racing set_default is never un-counted", floor=9)
+    ck.rule("C04.R7", "the std and no_std registries talk to collectors and callsites through the same set of calls", floor=4)
     ck.rule("C04.R6", "collector wrappers pass register_callsite / on_register_dispatch / max_level_hint on to the wrapped collector (as C09.R1/R2)", floor=12)
     ck.rule("C04.R5", "every turnover re-evaluates interests and the max level (see C01.R5–R7)", floor=2)
     r1(ck, F)
@@ -82,6 +83,8 @@ def run(ck):
     r4(ck, F)
     r5(ck, F)
     r7(ck, F)
+    from rules import C02
+    C02.r1(ck, F, rid="C04.R8")
     # a collector reached through Box/Arc/Layered must itself be offered every callsite (C09.R1/R2, instantiated)
     from rules import C09
     C09.wrapper_rules(ck, F, rids={"R0": "C04.R6", "R1": "C04.R6", "R2": "C04.R6", "R3": "C04.R6"}, traits=["tracing_core::collect::Collect"],
@@ -371,6 +374,19 @@ def r7(ck, F, rid="C04.R7"):
         if not (ck.anchor(rid, p + " (std)", a) and ck.anchor(rid, p + " (no_std)", b)):
             continue
         ea, eb = effects(F, p), effects(N, p)
+        if fn == "register_dispatch":
+            # "a collector starts to count": with std that is the creation of its Dispatch (it joins the dispatcher list
+            # that `register` folds over); without std it is its installation as the global default (the only dispatcher
+            # `register` consults there) -- a Dispatch that is merely created must leave the caches alone. Compare the
+            # std creation path with the no_std creation + installation paths together.
+            eb = eb | effects(N, "tracing_core::dispatch::set_global_default")
+            stray = effects(N, p) - {"Collect::on_register_dispatch"}
+            if stray:
+                ck.bad(rid, "no_std register_dispatch leaves the caches alone (only the installed global default counts)", where(b.raw["sp"]),
+                       "creating a Dispatch re-evaluates %s against a dispatcher that is not (yet) the global default: the installed collector's "
+                       "callsites are cached for the wrong collector" % sorted(stray), fn=p)
+            else:
+                ck.ok(rid, "no_std register_dispatch leaves the caches alone (only the installed global default counts)", fn=p)
         # the dispatcher list only exists under std: upgrading weak registrars has no no_std counterpart
         if ea == eb:
             ck.ok(rid, key, detail=sorted(ea))
